@@ -1,11 +1,234 @@
-/- C05 — executable model (stub; filled in by the property's owner). -/
+/-
+C05 — squared Euclidean distance transform and generalised Voronoi
+(`_distance.cpp`: `dist_transform`, `py_dt`; `distance.py`: `distance`; `segmentation.py`: `gvoronoi`).
+
+* **model**: the Felzenszwalb–Huttenlocher lower envelope of parabolas (`v`, `z` as a stack, top
+  first; `z[0] = -inf` is `none`), the read-out walk `while (z[k+1] < q) ++k`, origin tracking, the
+  pass along every axis, and the finite "infinity" fill values chosen in Python.
+  All sampled values are integers; the only quotient is the intersection abscissa `s`, computed
+  here in exact rational arithmetic (`Rat`). In the C code it is one correctly rounded double
+  division of integers below 2^53 and is only ever *compared* with other such quotients or with
+  integers, so every comparison has the same outcome for axis lengths below 2^12 (assumption).
+* **specification**: brute-force minimum of the squared Euclidean distance to a background pixel.
+-/
 import Mahotas.Model.Border
 import Mahotas.Model.DType
 namespace Mahotas.C05
 open Mahotas
 
+/-! ### one-dimensional transform (`dist_transform`) -/
+
+/-- abscissa at which the parabolas rooted at `u` and `v` intersect -/
+def sInt (g : Nat → Rat) (u v : Nat) : Rat :=
+  ((g v + (v : Rat) ^ 2) - (g u + (u : Rat) ^ 2)) / 2 / ((v : Rat) - (u : Rat))
+
+/-- `(v[k], z[k])`, top of the stack first; `z = none` is `-inf` -/
+abbrev Stack := List (Nat × Option Rat)
+
+/-- `s <= z[k]` (the pop condition, `!(s > z[k])`) -/
+def leOpt (s : Rat) : Option Rat → Bool
+  | none => false
+  | some z => decide (s ≤ z)
+
+/-- `z[k] < x` -/
+def ltOpt (z : Option Rat) (x : Rat) : Bool :=
+  match z with
+  | none => true
+  | some z => decide (z < x)
+
+/-- the `do { … --k; } while (true)` loop: pop while `s(v[k], q) <= z[k]` -/
+def popTo (g : Nat → Rat) (q : Nat) : Stack → Stack
+  | [] => []
+  | (v, z) :: rest => if leOpt (sInt g v q) z then popTo g q rest else (v, z) :: rest
+
+def topV : Stack → Nat
+  | [] => 0
+  | (v, _) :: _ => v
+
+/-- `++k; v[k] = q; z[k] = s` -/
+def push (g : Nat → Rat) (q : Nat) (st : Stack) : Stack :=
+  (q, some (sInt g (topV (popTo g q st)) q)) :: popTo g q st
+
+/-- the stack after the first loop has handled `q = 1 … m` -/
+def build (g : Nat → Rat) : Nat → Stack
+  | 0 => [(0, none)]
+  | m + 1 => push g (m + 1) (build g m)
+
+/-- root of the first entry from the top whose `z` is below `x`: the parabola that owns `x` -/
+def owner : Stack → Rat → Nat
+  | [], _ => 0
+  | (v, z) :: rest, x => if ltOpt z x then v else owner rest x
+
+/-- the read-out walk on the stack turned bottom first: `while (z[k+1] < q) ++k` -/
+def advance (x : Rat) : List (Nat × Option Rat) → List (Nat × Option Rat)
+  | e :: e' :: rest => if ltOpt e'.2 x then advance x (e' :: rest) else e :: e' :: rest
+  | l => l
+
+def headV : List (Nat × Option Rat) → Nat
+  | [] => 0
+  | (v, _) :: _ => v
+
+/-- second loop: for `q = 0 … n-1` the owning root `v[k]`, walking `k` upwards -/
+def readOwners (n : Nat) (bottomFirst : List (Nat × Option Rat)) : List Nat :=
+  ((List.range n).foldl (fun (acc : List (Nat × Option Rat) × List Nat) (q : Nat) =>
+      let cur := advance (q : Rat) acc.1
+      (cur, acc.2 ++ [headV cur])) (bottomFirst, [])).2
+
+/-- the owners as the C code finds them -/
+def owners1d (f : Array Int) : List Nat :=
+  let g : Nat → Rat := fun i => ((f.getD i 0 : Int) : Rat)
+  match f.size with
+  | 0 => []
+  | m + 1 => readOwners (m + 1) (build g m).reverse
+
+/-- the owners by searching the stack from the top (what the walk is proved/validated to compute) -/
+def owners1dTop (f : Array Int) : List Nat :=
+  let g : Nat → Rat := fun i => ((f.getD i 0 : Int) : Rat)
+  match f.size with
+  | 0 => []
+  | m + 1 => (List.range (m + 1)).map fun (q : Nat) => owner (build g m) (q : Rat)
+
+/-- `Df[q] = square(q - v[k]) + f[v[k]]` -/
+def valueAt (f : Array Int) (q v : Nat) : Int := ((q : Int) - (v : Int)) ^ 2 + f.getD v 0
+
+def dt1d (f : Array Int) : List Int :=
+  (List.zip (List.range f.size) (owners1d f)).map fun qv => valueAt f qv.1 qv.2
+
+/-- specification of one pass: `min_v (q - v)^2 + f v` -/
+def minPlus1d (f : Array Int) (q : Nat) : Int :=
+  (List.range f.size).foldl (fun m v => min m (valueAt f q v)) (valueAt f q 0)
+
+/-! ### passes along the axes of an n-D array -/
+
+/-- element stride (C order) of axis `ax` -/
+def strideOf (shape : List Nat) (ax : Nat) : Nat := shapeSize (shape.drop (ax + 1))
+
+/-- one pass of `dist_transform` along axis `ax` over every line; `orig` is carried along -/
+def passAxis (shape : List Nat) (ax : Nat) (fo : Array Int × Array Int) : Array Int × Array Int :=
+  let n := shape.getD ax 1
+  let st := strideOf shape ax
+  (List.range (shapeSize shape)).foldl (fun (acc : Array Int × Array Int) i =>
+      if (i / st) % n != 0 then acc else
+        let line : Array Int := ((List.range n).map fun t => fo.1.getD (i + t * st) 0).toArray
+        let own := owners1d line
+        (List.zip (List.range n) own).foldl (fun (acc : Array Int × Array Int) qv =>
+            (acc.1.setIfInBounds (i + qv.1 * st) (valueAt line qv.1 qv.2),
+             acc.2.setIfInBounds (i + qv.1 * st) (fo.2.getD (i + qv.2 * st) 0))) acc)
+    fo
+
+def sumSq : List Nat → Int
+  | [] => 0
+  | s :: ss => (s : Int) * (s : Int) + sumSq ss
+
+/-- the fill value for foreground pixels chosen in `distance.py` / `segmentation.py`:
+    `len(shape)*max(shape)**2+1` for 2-D, `sum(s*s for s in shape)+1` otherwise -/
+def sentinel (shape : List Nat) : Int :=
+  if shape.length == 2 then 2 * ((shape.foldl max 0 : Nat) : Int) ^ 2 + 1
+  else sumSq shape + 1
+
+/-- `distance(bw)` (metric `euclidean2`) together with the tracked origins:
+    `bw` non-zero = foreground; axes are processed in order -/
+def distanceModel (shape : List Nat) (bw : Array Int) : Array Int × Array Int :=
+  let f0 : Array Int := bw.map fun b => if b == 0 then 0 else sentinel shape
+  let o0 : Array Int := ((List.range (shapeSize shape)).map fun (i : Nat) => (i : Int)).toArray
+  (List.range shape.length).foldl (fun fo ax => passAxis shape ax fo) (f0, o0)
+
+/-! ### the same passes at the level of coordinates
+
+`distance.py` reaches the lines of an n-D array through `np.moveaxis`/`np.ndindex` views, i.e.
+logically: every pixel receives the value of the 1-D transform of the line through it along the
+axis. `distanceCoord` states the passes in this form (no strides); the driver runs it next to the
+flat/stride form above and the harness insists that both agree with the implementation. -/
+
+/-- the root chosen by the read-out walk for abscissa `q` -/
+def ownerAt (f : Array Int) (q : Nat) : Nat := (owners1d f).getD q 0
+
+/-- the line through `p` along axis `ax` -/
+def lineOf (im : Img Int) (p : List Int) (ax : Nat) : Array Int :=
+  ((List.range (im.shape.getD ax 0)).map fun (t : Nat) => im.getD (p.set ax (t : Int)) 0).toArray
+
+/-- one pass along axis `ax`: values and tracked origins (flat indices) -/
+def passCoord (fo : Img Int × Img Int) (ax : Nat) : Img Int × Img Int :=
+  (Img.tabulate fo.1.shape fun p =>
+      let line := lineOf fo.1 p ax
+      let q := (p.getD ax 0).toNat
+      valueAt line q (ownerAt line q),
+   Img.tabulate fo.1.shape fun p =>
+      let line := lineOf fo.1 p ax
+      let q := (p.getD ax 0).toNat
+      fo.2.getD (p.set ax ((ownerAt line q : Nat) : Int)) 0)
+
+/-- the initial images: 0 on the background, the fill value elsewhere; origins = own flat index -/
+def initCoord (shape : List Nat) (bw : Array Int) : Img Int × Img Int :=
+  (Img.tabulate shape fun p => if bw.getD (ravelI shape p) 0 == 0 then 0 else sentinel shape,
+   Img.tabulate shape fun p => ((ravelI shape p : Nat) : Int))
+
+def distanceCoord (shape : List Nat) (bw : Array Int) : Img Int × Img Int :=
+  (List.range shape.length).foldl passCoord (initCoord shape bw)
+
+/-! ### specification -/
+
+def sqDist : List Int → List Int → Int
+  | a :: as, b :: bs => (a - b) * (a - b) + sqDist as bs
+  | _, _ => 0
+
+/-- minimum squared distance from `p` to a pixel where `sel` holds; `none` if there is none -/
+def nearest2 (shape : List Nat) (sel : Array Bool) (p : List Int) : Option Int :=
+  (List.range (shapeSize shape)).foldl (fun (m : Option Int) i =>
+      if sel.getD i false then
+        let d := sqDist p (unravelI shape i)
+        match m with
+        | none => some d
+        | some m => some (min m d)
+      else m) none
+
+/-- largest attainable squared distance inside the box -/
+def maxDist2 : List Nat → Int
+  | [] => 0
+  | s :: ss => ((s : Int) - 1) * ((s : Int) - 1) + maxDist2 ss
+
+/-- `edt2`: at every pixel the minimum squared distance to the background, `-1` when there is none -/
+def edtSpec (shape : List Nat) (bw : Array Int) : List Int :=
+  let sel := bw.map (· == 0)
+  (allPos shape).map fun p => (nearest2 shape sel p).getD (-1)
+
+/-- gvoronoi: for every pixel the labels of the labelled pixels at minimum distance -/
+def voronoiSpec (shape : List Nat) (lab : Array Int) (p : List Int) : List Int :=
+  let sel := lab.map (· != 0)
+  match nearest2 shape sel p with
+  | none => []
+  | some d =>
+    ((List.range (shapeSize shape)).filterMap fun i =>
+      if sel.getD i false && sqDist p (unravelI shape i) == d then some (lab.getD i 0) else none).eraseDups
+
+/-! ### driver entry -/
+
+def showAcc (xs : List (List Int)) : String :=
+  ",".intercalate (xs.map fun l => "|".intercalate (l.map toString))
+
 def handle (a : Args) : String :=
+  let shape := a.nats "shape"
   match a.str "kind" with
+  | "dist" =>
+    let bw := (a.ints "data").toArray
+    let m := (distanceCoord shape bw).1.data
+    let fl := (distanceModel shape bw).1
+    let spec := edtSpec shape bw
+    s!"spec={showInts spec} model={showInts m.toList} flat={showInts fl.toList} maxd={maxDist2 shape}"
+  | "gvor" =>
+    -- labels; background of the transform = labelled pixels
+    let lab := (a.ints "data").toArray
+    let bw := lab.map fun l => if l == 0 then (1 : Int) else 0
+    let o := (distanceCoord shape bw).2.data
+    let model := o.toList.map fun i => lab.getD i.toNat 0
+    let ofl := (distanceModel shape bw).2
+    let flat := ofl.toList.map fun i => lab.getD i.toNat 0
+    let acc := (allPos shape).map (voronoiSpec shape lab)
+    s!"acc={showAcc acc} model={showInts model} flat={showInts flat}"
+  | "dt1d" =>
+    let f := (a.ints "data").toArray
+    let spec := (List.range f.size).map (minPlus1d f)
+    s!"spec={showInts spec} model={showInts (dt1d f)} walk={showNats (owners1d f)} top={showNats (owners1dTop f)}"
   | k => s!"error=unknown-kind-{k}"
 
 end Mahotas.C05
